@@ -157,6 +157,11 @@ class StopExploration(Exception):
     pass
 
 
+# the executions this process has run so far (configuration + schedule): a violation that depends on
+# state the code keeps between calls is replayed after them
+_EXECUTED = []
+
+
 def direct_oracle(prior, sum_mode, out):
     """The clauses of the statement on one execution; returns a list of (clause, expected, got)."""
     bad = []
@@ -212,8 +217,15 @@ def run_direct(case, acc, order):
     ENTRY['kind'] = case.get('entry', 'download_file')
     first = case.get('schedule')
 
+    attempted = []
+
     def run(ch):
-        return run_download(prior, mode, ch)
+        attempted.append(list(ch.prefix))
+        out = run_download(prior, mode, ch)
+        _EXECUTED.append({'prior': prior, 'sum': mode, 'body': case.get('body', 'small'),
+                          'entry': case.get('entry', 'download_file'), 'schedule': list(ch.schedule)})
+        del _EXECUTED[:-80]
+        return out
 
     seen = []
 
@@ -232,7 +244,7 @@ def run_direct(case, acc, order):
             sig = '%s/direct/%s/%s' % (PROP, 'per-request' if mode == 'per-request' else 'constant',
                                        clause)
             acc.violation(sig, core.make_record(
-                PROP, 'direct', sig, case=dict(case, schedule=ch.schedule),
+                PROP, 'direct', sig, case=dict(case, schedule=ch.schedule, executed_before=list(_EXECUTED[:-1])),
                 trace={'prior': prior, 'checksum': mode, 'data_answers': out['data'],
                        'checksum_answers': out['sum'], 'schedule': ch.schedule},
                 expected=exp, observed={'what': got, 'outcome': out['outcome'], 'exc': out['exc'],
@@ -246,6 +258,18 @@ def run_direct(case, acc, order):
     else:
         try:
             core.explore_env(run, on_exec)
+        except core.ChoiceDivergence as e:
+            # the same prefix of server answers led to another execution than before: the code under
+            # test behaves differently depending on the calls made earlier in this process
+            sig = '%s/direct/%s/behaviour-depends-on-earlier-calls' % (
+                PROP, 'per-request' if mode == 'per-request' else 'constant')
+            acc.step(True, 'direct:diverged')
+            acc.violation(sig, core.make_record(
+                PROP, 'direct', sig, case=dict(case, schedule=attempted[-1] if attempted else [],
+                                               executed_before=list(_EXECUTED[:-1])),
+                expected='the same server answers give the same execution, whatever ran before',
+                observed=str(e)), 0)
+            return [(scenario_key(prior, mode, o), sc) for sc, o in seen]
         except StopExploration:
             acc.extra['exploration_stopped_after_hangs'] += 1
             return [(scenario_key(prior, mode, o), sc) for sc, o in seen]
@@ -397,13 +421,41 @@ def explore(ctx):
                   'body_bytes': SIZES}
 
 
+def _observe(case):
+    set_bodies(case.get('body', 'small'))
+    ENTRY['kind'] = case.get('entry', 'download_file')
+    ch = core.Choices(case.get('schedule') or [])
+    out = run_download(case['prior'], case['sum'], ch)
+    set_bodies('small')
+    ENTRY['kind'] = 'download_file'
+    return (out['outcome'], tuple(out['data']), tuple(out['sum']), out['file_md5'], len(ch.trace))
+
+
 def replay(record):
     imports()
     acc = core.Acc()
+    if record['signature'].endswith('behaviour-depends-on-earlier-calls'):
+        # the schedule in a fresh process, then after the recorded earlier executions: same observation?
+        case = record['case']
+        first = _observe(case)
+        for h in case.get('executed_before') or []:
+            _observe(h)
+        again = _observe(case)
+        if first != again:
+            acc.violation(record['signature'], core.make_record(
+                PROP, 'direct', record['signature'], case=case, expected=list(first), observed=list(again)))
+        return [dict(v['record'], signature=s) for s, v in acc.violations.items()]
     if record['subcheck'] == 'model':
         run_model_path(record['case'], acc, 0)
     else:
-        keys = run_direct(record['case'], acc, 0)
+        keys = run_direct({k: v for k, v in record['case'].items() if k != 'executed_before'}, acc, 0)
+        if record['signature'] not in acc.violations and record['case'].get('executed_before'):
+            # not reproduced on its own: run what the process had executed before it, then the case again
+            for h in record['case']['executed_before']:
+                run_direct({'prior': h['prior'], 'sum': h['sum'], 'body': h['body'], 'entry': h['entry'],
+                            'schedule': h['schedule']}, core.Acc(), 0)
+            acc = core.Acc()
+            keys = run_direct({k: v for k, v in record['case'].items() if k != 'executed_before'}, acc, 0)
         if record['signature'].endswith('schedule-not-in-model'):
             ctx = core.Ctx(PROP, 'quick', 0, 1)
             terminals, _ = model_paths(ctx, False)
